@@ -107,3 +107,30 @@ Qed.
 Theorem dead_heat_count w d prev :
   dead_heat w d prev = if d =? 0 then Some 1 else if d <? w then Some w else prev.
 Proof. reflexivity. Qed.
+
+(* ---- process_closed_market: an order is settled by the runner on ITS (selection, handicap) line and by nothing else ---- *)
+Lemma runner_key_eqb_eq k1 k2 : runner_key_eqb k1 k2 = true <-> k1 = k2.
+Proof.
+  destruct k1 as [a b], k2 as [c d]. unfold runner_key_eqb. cbn [fst snd]. rewrite andb_true_iff, !Z.eqb_eq. split; [intros [-> ->]; reflexivity|intros H; inversion H; split; reflexivity].
+Qed.
+Lemma closed_result_absent rs k acc : ~ In k (map fst rs) -> closed_result rs k acc = acc.
+Proof.
+  revert acc. induction rs as [|[k' r] rs IH]; intros acc Hn; cbn [closed_result]; [reflexivity|].
+  cbn [map fst In] in Hn. destruct (runner_key_eqb k k') eqn:E.
+  - apply runner_key_eqb_eq in E. exfalso. apply Hn. left. symmetry. exact E.
+  - apply IH. intros Hx. apply Hn. right. exact Hx.
+Qed.
+Lemma closed_result_unique rs k r acc : NoDup (map fst rs) -> In (k, r) rs -> closed_result rs k acc = r.
+Proof.
+  revert acc. induction rs as [|[k' r'] rs IH]; intros acc Hnd Hin; [contradiction|].
+  cbn [map fst] in Hnd. apply NoDup_cons_iff in Hnd as [Hk Hnd]. cbn [closed_result]. destruct Hin as [Hin|Hin].
+  - inversion Hin. replace (runner_key_eqb k k) with true by (symmetry; apply runner_key_eqb_eq; reflexivity).
+    apply closed_result_absent. congruence.
+  - apply IH; assumption.
+Qed.
+(* runners on other lines (another selection, or the same selection at another handicap) play no part, wherever they are listed *)
+Lemma closed_result_only_own_line rs k acc : closed_result rs k acc = closed_result (filter (fun x => runner_key_eqb k (fst x)) rs) k acc.
+Proof.
+  revert acc. induction rs as [|[k' r] rs IH]; intros acc; cbn [closed_result filter fst]; [reflexivity|].
+  destruct (runner_key_eqb k k') eqn:E; cbn [closed_result]; [rewrite E|]; apply IH.
+Qed.
